@@ -34,7 +34,7 @@ pub fn enumerated() -> Vec<String> {
     }
     // (a') the last move token cut to 0..3 bytes, after one, two, three good moves
     for good in ["", " e2e4", " e2e4 e7e5", " e2e4 e7e5 g1f3"] {
-        for tok in ["", "e", "e2", "e2e", "b", "b1", "b1c", "a7a8", "a7a", "e7e8q", "e7e8x", "e2e4q", "0000", "e9e4", "i2i4", "e2e4e", "e2e4qq"] {
+        for tok in ["", "e", "e2", "e2e", "b", "b1", "b1c", "a7a8", "a7a", "e7e8q", "e7e8x", "e2e4q", "0000", "e9e4", "i2i4", "e2e4e", "e2e4qq", "E2E4", "e2-e4", "e2e4+", "e2e4#", "e1g1k", "e1g1q", "O-O", "0-0", "e7e8Q", "e7e8k", "e7e8p", "e2e4 ", "e2 e4", "e2e4!", "exd5", "Nf3", "e2e4e5", "  "] {
             out.push(format!("position startpos moves{} {}", good, tok));
         }
     }
